@@ -49,6 +49,7 @@ import (
 	"net/http"
 	"net/http/cookiejar"
 	"net/url"
+	"strings"
 	"sync"
 	"time"
 
@@ -137,13 +138,28 @@ func (h *sessionHandler) extractSessionID(r *http.Request) string {
 }
 
 func (h *sessionHandler) restoreSession(r *http.Request, cachedCookies []*http.Cookie) {
-	// Remove the session cookie
-	existingCookies := r.Cookies()
-	r.Header.Del("Cookie")
-	for _, c := range existingCookies {
-		if c.Name != h.c.sessionCookieName {
-			r.AddCookie(c)
+	// Remove the session cookie, and pass the client's other cookies on exactly as they
+	// were sent (parsing and re-serializing them would drop or rewrite every cookie whose
+	// value is outside of what `net/http` accepts, e.g. JSON text or non-ASCII characters).
+	var clientCookies []string
+	for _, line := range r.Header.Values("Cookie") {
+		for _, pair := range strings.Split(line, ";") {
+			pair = strings.TrimSpace(pair)
+			if pair == "" {
+				continue
+			}
+			name := pair
+			if i := strings.IndexByte(pair, '='); i >= 0 {
+				name = strings.TrimSpace(pair[:i])
+			}
+			if name != h.c.sessionCookieName {
+				clientCookies = append(clientCookies, pair)
+			}
 		}
+	}
+	r.Header.Del("Cookie")
+	if len(clientCookies) > 0 {
+		r.Header.Set("Cookie", strings.Join(clientCookies, "; "))
 	}
 
 	// Restore any cached cookies from the session
